@@ -89,7 +89,7 @@ func engEnc(e *Env) {
 	ctx := context.Background()
 	r := NewRng(e.Seed)
 	e.Res.Rule = "histories: create with encrypt:true or encryptFields:<random non-empty subset of 7 fields>, each field present at creation with probability 0.6 (at least one); 2-8 updates of 1-2 fields each (40% aimed at fields not yet written), 25% issued on the key-holding peer, under field-level encryption 15% issued on the key-less peer (its own plaintext; the next write of a key holder must still be ciphertext); plain and branchable collections; distinct = distinct (mode, fields at creation, update field sequence); non-trivial = some update writes a field for the first time or is issued on the peer"
-	nHist := 24
+	nHist := 32
 	if e.thorough() {
 		nHist = 600
 	}
@@ -434,7 +434,7 @@ func engEnc(e *Env) {
 			} else if r.Chance(25) {
 				w, others = k, []*Nd{a, n}
 				nontrivial = true
-			} else if !docEnc && r.Chance(25) {
+			} else if !docEnc && r.Chance(50) {
 				// the key-less peer writes one register field (counters excluded: its view of the counter is empty)
 				var regs []encField
 				for _, f := range fields {
